@@ -19,10 +19,11 @@ def load_known():
 
 
 class Result:
-    __slots__ = ("rule", "key", "status", "where", "fact", "clause")
+    __slots__ = ("rule", "key", "status", "where", "fact", "clause", "soft")
 
-    def __init__(self, rule, key, status, where, fact, clause):
+    def __init__(self, rule, key, status, where, fact, clause, soft=False):
         self.rule, self.key, self.status, self.where, self.fact, self.clause = rule, key, status, where, fact, clause
+        self.soft = soft          # True: "the expected shape / formula was not matched" (as opposed to: a wrong construct was identified)
 
     def as_dict(self):
         return dict(rule=self.rule, key=self.key, status=self.status, where=self.where, fact=self.fact, clause=self.clause)
@@ -59,14 +60,16 @@ class Ctx:
     def ok(self, rule, key, where, fact=""):
         self.results.append(Result(rule, key, "ok", where, fact, self._clause))
 
-    def violation(self, rule, key, where, fact=""):
-        self.results.append(Result(rule, key, "violation", where, fact, self._clause))
+    def violation(self, rule, key, where, fact="", soft=False):
+        self.results.append(Result(rule, key, "violation", where, fact, self._clause, soft))
 
     def check(self, cond, rule, key, where, fact_ok="", fact_bad=""):
         if cond:
             self.ok(rule, key, where, fact_ok)
         else:
-            self.violation(rule, key, where, fact_bad or fact_ok)
+            # a failed match: reportable as a violation only while the function still has the structure the matcher was written
+            # for (core.restructured); a wrong construct that the checker identifies positively is filed with ctx.violation instead
+            self.violation(rule, key, where, fact_bad or fact_ok, soft=True)
         return cond
 
     def count(self, rule, label, found, minimum):
@@ -109,6 +112,74 @@ def run_property(prop, tier, repo=None, quiet=False):
     except Exception as e:  # analyser bug: never a violation
         tb = traceback.format_exc().strip().splitlines()
         return 2, None, [f"ANALYSIS-ERROR property={prop} analyser exception {type(e).__name__}: {e}"] + tb[-6:]
+
+
+_FP = None
+
+
+def statement_bag(repo, func):
+    """multiset of the function's own statements (simple statements whole, compound statements by their header), as short hashes"""
+    import ast
+    import hashlib
+    from collections import Counter
+    out = Counter()
+    for n in repo.own_nodes(func):
+        if isinstance(n, ast.stmt) and n is not func.node:
+            if isinstance(n, (ast.If, ast.While)):
+                key = "H:" + ast.dump(n.test)
+            elif isinstance(n, (ast.For, ast.AsyncFor)):
+                key = "H:" + ast.dump(n.target) + ast.dump(n.iter)
+            elif isinstance(n, (ast.Try, ast.With, ast.AsyncWith, ast.FunctionDef, ast.AsyncFunctionDef, ast.ClassDef)):
+                key = "H:" + type(n).__name__
+            else:
+                key = ast.dump(n)
+            out[hashlib.sha1(key.encode()).hexdigest()[:12]] += 1
+    return out
+
+
+EDIT_LIMIT = 8        # statements added + removed (one rewritten statement counts 2): above this the function counts as rewritten
+
+
+def restructured(ctx, result):
+    """A failed match (soft result) is reportable as a violation only while the function it is anchored in is still close to what it
+    was when the matcher was written: at most EDIT_LIMIT statements added or removed relative to the recorded baseline
+    (fsv/baseline_stmts.json).  A function that has been rewritten more than that may say the same thing differently, and the
+    failed match is 'cannot decide'.  -> description of the restructuring, else None"""
+    global _FP
+    if not getattr(result, "soft", False):
+        return None
+    if _FP is None:
+        try:
+            _FP = json.load(open(os.path.join(VERIF, "fsv", "baseline_stmts.json")))["functions"]
+        except Exception:
+            _FP = {}
+    if not _FP:
+        return None
+    q = result.key.split(" / ")[0].strip()
+    if q not in ctx.repo.functions:
+        parts = str(result.where).split()
+        q = parts[1] if len(parts) > 1 else q
+    f = ctx.repo.functions.get(q)
+    if f is None:
+        return None
+    was = _FP.get(q)
+    if was is None:
+        return f"{q} did not exist when the obligations were bound"
+    from collections import Counter
+    now, was = statement_bag(ctx.repo, f), Counter(was)
+    delta = sum(((now - was) + (was - now)).values())
+    if delta > EDIT_LIMIT:
+        return f"{q} has been rewritten since the obligations were bound ({delta} statements added or removed, limit {EDIT_LIMIT})"
+    return None
+
+
+def split_restructured(ctx, viol):
+    """-> (reportable violations, [(result, why)] that are only 'cannot decide')"""
+    hard, soft = [], []
+    for r in viol:
+        why = restructured(ctx, r)
+        (soft.append((r, why)) if why else hard.append(r))
+    return hard, soft
 
 
 def classify(ctx):
@@ -210,11 +281,17 @@ def main(argv=None):
             print(m)
         return 2
     viol, kn = classify(ctx)
+    viol, soft = split_restructured(ctx, viol)
+    for r, why in soft:
+        print(f"ANALYSIS-ERROR property={a.prop} {r.where} [{r.rule}] {r.key}: the obligation no longer matches and {why}; a restructured function may "
+              f"say the same thing differently - cannot decide, re-bind the anchor")
     if code == 3:
         for m in msgs:
             print(m)
         if not viol:
             return 2
+    if soft and not viol:
+        return 2
     if a.replay:
         with open(a.replay if os.path.isabs(a.replay) else os.path.join(VERIF, a.replay)) as f:
             want = json.load(f)
